@@ -188,6 +188,26 @@ def exact_probs(spec):
     raise ValueError(fam)
 
 
+def min_marginal(spec):
+    """smallest per-variable probability of a family instance (float).  torch differentiates
+    log P through `sigmoid(l) - target` / `onehot - softmax(l)`: a difference that carries an ABSOLUTE
+    rounding error of one ulp of 1, i.e. a relative error of eps / (that probability)."""
+    import torch
+    fam, par, th = spec["fam"], spec["param"], spec["theta"]
+    rows = th if fam == "cat2" else [th]
+    m = 1.0
+    for row in rows:
+        t = torch.tensor([float(F(x)) for x in row], dtype=torch.float64)
+        if fam == "bern":
+            p = t if par == "probs" else torch.sigmoid(t)
+            q = 1 - t if par == "probs" else torch.sigmoid(-t)
+            m = min(m, float(torch.minimum(p, q).min()))
+        else:
+            p = t / t.sum() if par == "probs" else torch.softmax(t, -1)
+            m = min(m, float(p.min()))
+    return m
+
+
 def n_params(spec):
     th = spec["theta"]
     return sum(len(r) for r in th) if spec["fam"] == "cat2" else len(th)
